@@ -292,16 +292,17 @@ namespace c07
     Sys s = gen_ddom(t, true, maxn, std::max(2.0, kcap / 4.0)); const int n = s.n;
     s.sym = false; s.cls = "spd+skew(" + s.cls + ")";
     double lmax = s.lmax, lmin = s.lmin;
-    // skew entries bounded so that ||K||_inf <= 3 * lmin keeps sigma/mu <= kcap
-    std::vector<double> ks((size_t)n, 0.0);
+    // skew entries bounded by 0.9 x the dominance margin of their rows: the matrix stays strictly diagonally dominant
+    // (same reason as in gen_convdiff) and sigma/mu <= kcap
+    std::vector<double> ks((size_t)n, 0.0), marg((size_t)n, 0.0);
+    for(int i = 0; i < n; ++i) { double r = 0; for(auto& kv : s.rows[(size_t)i]) if(kv.first != i) r += std::fabs(kv.second); marg[(size_t)i] = 0.9 * (s.rows[(size_t)i][i] - r); }
     int cnt = n > 1 ? t.range(0, 2 * n) : 0;
     SubTape kt(t.raw(), (size_t)(3 * cnt + 1), t.size); Tape& r = kt.t;
     for(int q = 0; q < cnt; ++q)
     {
       int i = r.range(0, n - 1), j = r.range(0, n - 1); if(i == j) { r.raw(); continue; }
       double v = offval(r, s.integer ? 0 : 1) * (s.integer ? 1.0 : lmin * 0.5);
-      if(s.integer && (ks[(size_t)i] + std::fabs(v) > 3.0 * lmin || ks[(size_t)j] + std::fabs(v) > 3.0 * lmin)) continue;
-      if(!s.integer && (ks[(size_t)i] + std::fabs(v) > 3.0 * lmin || ks[(size_t)j] + std::fabs(v) > 3.0 * lmin)) continue;
+      if(ks[(size_t)i] + std::fabs(v) > marg[(size_t)i] || ks[(size_t)j] + std::fabs(v) > marg[(size_t)j]) continue;
       double aij = s.rows[(size_t)i].count(j) ? s.rows[(size_t)i][j] : 0.0, aji = s.rows[(size_t)j].count(i) ? s.rows[(size_t)j][i] : 0.0;
       s.rows[(size_t)i][j] = aij + v; s.rows[(size_t)j][i] = aji - v; ks[(size_t)i] += std::fabs(v); ks[(size_t)j] += std::fabs(v);
     }
@@ -316,6 +317,10 @@ namespace c07
     Sys s; s.sym = false; s.n = t.sized(1, maxn); const int n = s.n;
     static const double cs[4] = { 0.5, 0.125, 1.0, 2.0 }; double c = cs[t.pick({3, 2, 2, 1})];
     static const double shifts[3] = { 1.0, 0.0625, 0.0 }; double sh = shifts[t.pick({3, 2, 1})];
+    // rows stay (weakly) diagonally dominant: |-1-c| + |-1+c| <= 2 + sh.  Without it Jacobi/SSOR sweeps amplify exponentially along
+    // the chain and the rounding level of the *preconditioned* problem is far above u*kappa(A) (false alarm seen: RGCR + SSOR(1.9)
+    // on (-3, 2, 1): ||M^-1|| ~ 2.85^n, recurrence and true residual apart by 1e10 u d0)
+    if(c > 1.0) sh = std::max(sh, 2.0 * c - 2.0);
     const double pi = 3.14159265358979323846;
     double mu = 0, sg = 0;
     for(int guard = 0; guard < 80; ++guard)
